@@ -361,6 +361,16 @@ def call_view(d, x, v, kind, use_method):
 
 
 def views_of(d, malformed):
+    vs = _views_of(d, malformed)
+    if d.get("negmodes") and not malformed and d["kind"] != "cp" and d.get("views") is None and not (d.get("skip") is not None or d.get("tr")):
+        # modes counted from the end (tl.unfold behind to_unfolded): -1, -order, and -(order+1) which must be rejected
+        order = {"tucker": lambda: len(d["fs"]), "tt": lambda: len(d["cores"]), "tr": lambda: len(d["cores"]),
+                 "ttm": lambda: 2 * len(d["cores"]), "p2": lambda: 3}[d["kind"]]()
+        vs = vs + [("unfolded", m) for m in sorted({-1, -order, -(order + 1)})]
+    return vs
+
+
+def _views_of(d, malformed):
     k = d["kind"]
     if d.get("views") is not None:
         return list(d["views"])
@@ -609,7 +619,7 @@ def gen_valid(tier, rng):
             rk = tuple(rng.choice([1, 2, 3]) for _ in s)
             core = rint(rng, rk)
             fs = [rint(rng, (n, r)) for n, r in zip(s, rk)]
-            yield dict(kind="tucker", core=core, fs=fs)
+            yield dict(kind="tucker", core=core, fs=fs, negmodes=(rep == 0))
             if rep == 0:
                 yield dict(kind="tucker", core=core, fs=fs, skip=rng.randrange(len(s)))
                 yield dict(kind="tucker", core=core, fs=[f.T.copy() for f in fs], tr=True, skip=(rng.randrange(len(s)) if rng.random() < 0.4 else None))
@@ -617,11 +627,11 @@ def gen_valid(tier, rng):
     for s in pick_shapes(rng, tier, [1, 2, 3, 4], full_to=2, sample=14 if not T else 81):
         for rep in range(2 if not T else 3):
             rk = [1] + [rng.choice([1, 2, 3]) for _ in range(len(s) - 1)] + [1]
-            yield dict(kind="tt", cores=[rint(rng, (rk[i], n, rk[i + 1])) for i, n in enumerate(s)])
+            yield dict(kind="tt", cores=[rint(rng, (rk[i], n, rk[i + 1])) for i, n in enumerate(s)], negmodes=(rep == 0))
             if len(s) >= 2:
                 r0 = rng.choice([1, 2, 3])
                 rk = [r0] + [rng.choice([1, 2, 3]) for _ in range(len(s) - 1)] + [r0]
-                yield dict(kind="tr", cores=[rint(rng, (rk[i], n, rk[i + 1])) for i, n in enumerate(s)])
+                yield dict(kind="tr", cores=[rint(rng, (rk[i], n, rk[i + 1])) for i, n in enumerate(s)], negmodes=(rep == 0))
     # ---- TT-matrix
     for n in (1, 2, 3):
         for rep in range((6 if n < 3 else 4) if not T else 25):
@@ -629,7 +639,7 @@ def gen_valid(tier, rng):
             if n == 3 and not T:
                 ins = [rng.choice([1, 2]) for _ in range(n)]; outs = [rng.choice([1, 2]) for _ in range(n)]
             rk = [1] + [rng.choice([1, 2, 3]) for _ in range(n - 1)] + [1]
-            yield dict(kind="ttm", cores=[rint(rng, (rk[i], ins[i], outs[i], rk[i + 1])) for i in range(n)])
+            yield dict(kind="ttm", cores=[rint(rng, (rk[i], ins[i], outs[i], rk[i + 1])) for i in range(n)], negmodes=(rep % 2 == 0))
     # ---- PARAFAC2 (uneven slices; integer orthonormal projections are signed partial permutations)
     for I in (1, 2, 3):
         for R in (1, 2, 3):
@@ -640,7 +650,7 @@ def gen_valid(tier, rng):
                     Js[0] = R; Js[-1] = R + 1  # certainly uneven
                 wk = rng.choice(["none", "ones", "signed"])
                 yield dict(kind="p2", w=weights(rng, wk, R), fs=[rint(rng, (I, R)), rint(rng, (R, R)), rint(rng, (K, R))],
-                           ps=[signed_perm_cols(rng, J, R) for J in Js], wk=wk)
+                           ps=[signed_perm_cols(rng, J, R) for J in Js], wk=wk, negmodes=(rep == 0))
     if T:
         # larger random decompositions (object histories for a third of them: the enumerated boxes above carry the wrapper coverage)
         nw = lambda: rng.random() < 0.67
@@ -1180,6 +1190,8 @@ def run_shards_with_retry(cases, shard):
 def run(chk):
     rng = random.Random(chk.seed)
     chk.build_proofs()
+    from harness.props import C03_ast
+    chk.cov["source_tie"] = C03_ast.run_static(chk)   # corr:C03-src: chain validators regenerated from the source; einsum equation of the TT-matrix
     C.reset_backends()
     tier = chk.tier
     cases, meta = [], []
@@ -1224,7 +1236,7 @@ def run(chk):
     chk.cov["exhaustive"] = False
     chk.cov["skipped_timeouts"] = SKIPPED["timeouts"]
     chk.cov["rule"] = ("one case = one decomposition (CP / Tucker / TT / TR / TT-matrix / PARAFAC2; integer entries in [-3,3]) observed through every view "
-                       "(validate|.shape/.rank, to_tensor [masked], to_unfolded for every mode + one invalid mode (CP of the enumerated boxes also the negative modes -1, -order and the invalid -(order+1)), to_vec, cp_norm / wrapper .norm(), to_matrix, slice(s)) under both tenalg backends "
+                       "(validate|.shape/.rank, to_tensor [masked], to_unfolded for every mode + one invalid mode (CP and half of the other decompositions of the enumerated boxes also the negative modes -1, -order and the invalid -(order+1)), to_vec, cp_norm / wrapper .norm(), to_matrix, slice(s)) under both tenalg backends "
                        "(the einsum TT-matrix route against its own model), "
                        "as tuple (one CViews case) and as wrapper-object HISTORY per backend (CObj cases run through the object model: construction, shuffled multi-step views with repeats, a shape-preserving __setitem__ phase after which the views must follow the new contents, and a shape-changing one = the classified known-finding class); plus mixed-dtype variants (int64 indicator / float32 / float64, half-integer floats, one complex array); CP: all shapes of order 1-3 over {1,2,3} (+ sampled order 4; thorough: all) x rank {1,2,3} x "
                        "weights {None, ones, signed non-unit} + masked; Tucker/TT/TR: all shapes of order 1-2 + sampled order 3-4 with random ranks in {1,2,3} incl. rank > dim, skip_factor, transpose_factors; "
@@ -1240,7 +1252,8 @@ def run(chk):
                        "the to_tensor routes are modelled for 2-D (and, rank 1, 1-D) CP factors, 2-D Tucker factors, 3-D TT/TR cores, 4-D TT-matrix cores; other ndims only through the validators",
                        "mixed-dtype / complex / half-integer factor sets are compared by VALUE after exact conversion (the model has no dtype); a complex array is split into two integer cases by linearity",
                        "NumPy reshape/moveaxis/transpose behave as modelled in Base/Tensor.v (validated by C01's primitive cases)"]
-    chk.trusted += ["einsum backend: the einsum routes of CP (khatri_rao), Tucker (multi_mode_dot) and the TT-matrix are modelled separately (value of the single np.einsum call) and proved equal to the core routes on well-formed input; TT / TR / PARAFAC2 run the same code under both backends; on malformed operands the Tucker and TT-matrix einsum routes are compared against their models as well (tucker_to_tensor_einsum_b: exact contracted dimensions; ttm_to_tensor_einsum: the validator's conditions first); the einsum khatri_rao of CP is reached only after _validate_cp_tensor and is compared on accepted sets only",
+    chk.trusted += ["source tie corr:C03-src: the ast translation of five validators into program terms (harness/props/C03_ast.py) and the reading of ein_chain as the equation ttm_equation N are trusted; _validate_parafac2_tensor is tied to the model by the differential correspondence only",
+                    "einsum backend: the einsum routes of CP (khatri_rao), Tucker (multi_mode_dot) and the TT-matrix are modelled separately (value of the single np.einsum call) and proved equal to the core routes on well-formed input; TT / TR / PARAFAC2 run the same code under both backends; on malformed operands the Tucker and TT-matrix einsum routes are compared against their models as well (tucker_to_tensor_einsum_b: exact contracted dimensions; ttm_to_tensor_einsum: the validator's conditions first); the einsum khatri_rao of CP is reached only after _validate_cp_tensor and is compared on accepted sets only",
                     "PARAFAC2 orthonormality threshold 1e-5 is modelled exactly (P^T P = I) which coincides on integer-valued projections"]
     _orig_load = C.load_known
 
